@@ -138,15 +138,19 @@ def _model_check_compute(quick):
     init = [R.randrange(256) for _ in range(w)]
     jobs = []   # (menus, maxreq, with TLC coverage statistics)
     if quick:
-        # -coverage doubles the cost of a run: in the quick tier only a small run collects the
-        # per-action statistics, the big runs are checked for vacuity by their depth (see below)
+        # -coverage doubles the cost of a run: only one run per tier collects the per-action
+        # statistics, every run is checked for vacuity by the depth of its state graph (see below)
         jobs += [(mn, 3, False) for mn in _menus(R, w, 2, 2)]
         jobs += [(mn, 2, False) for mn in _menus(R, w, 5, 1)]
         jobs += [(mn, 2, True) for mn in _menus(R, w, 2, 1)]
     else:
-        jobs += [(mn, 3, True) for mn in _menus(R, w, 3, 8)]
-        jobs += [(mn, 3, True) for mn in _menus(R, w, 4, 1)]
-        jobs += [(mn, 2, True) for mn in _menus(R, w, 7, 3)]
+        m3 = _menus(R, w, 3, 8)
+        m4 = _menus(R, w, 4, 1)
+        m7 = _menus(R, w, 7, 3)
+        # the largest run (3.6 M states) first; action statistics from the hand-written menu pair
+        jobs += [(mn, 3, False) for mn in m4]
+        jobs += [(mn, 3, k == 0) for k, mn in enumerate(m3)]
+        jobs += [(mn, 2, False) for mn in m7]
     tmp = tempfile.mkdtemp(prefix="c18mc_")
     ncpu = os.cpu_count() or 4
     par = min(len(jobs), max(1, ncpu // 3))
@@ -678,6 +682,9 @@ def _inferred(res, good, quick):
     R.shuffle(cand)
     sub = cand[:40 if quick else 500]
     if not sub:
+        if res.violations:      # nothing was accepted: the violations already reported say why
+            res.note("traces_validated_with_inferred_process_order", 0)
+            return []
         raise MachineryError("no accepted trace small enough for the inferred-order mode")
     # every second run with "sent at the handshake" (a run accepted with the logged order has its
     # Process events behind the handshakes, so both readings must find an order)
@@ -870,7 +877,12 @@ def _canaries(res, good):
             cc["ev"][d[0]]["d"][0] = free[0]
         inf.append(cc)
     if len(kinds) < 6 or min(kinds.values()) < 1 or len(inf) < 2:
-        raise MachineryError("could not build every canary kind: %s, inferred %d" % (dict(kinds), len(inf)))
+        if not res.violations:
+            raise MachineryError("could not build every canary kind: %s, inferred %d" % (dict(kinds), len(inf)))
+        # too few accepted runs to corrupt, because runs were rejected (reported as violations): the
+        # verdict is exit 1 either way; the hand-written histories below are still checked
+        res.note("canary_kinds_not_built_for_lack_of_accepted_runs", [k for k in
+                 ("swap", "stale", "final", "dropproc", "opaque", "amo") if kinds[k] == 0] + (["inferred"] if len(inf) < 2 else []))
     cv = _validate(res, lin)
     acc = [exp[i] for i, v in enumerate(cv) if v[0] == "ok"]
     if acc:
